@@ -50,7 +50,7 @@ NoOutcome == [k |-> "none"]
 \* the form of the call (see ChooseForm)
 NoForm == [set |-> FALSE]
 DefaultForm == [set |-> TRUE, cont |-> "list", naming |-> "plain", subst |-> "map", psym |-> "default",
-                num |-> "int", calls |-> 1, modearg |-> "plain", allow |-> FALSE]
+                num |-> "int", calls |-> 1, modearg |-> "plain", allow |-> FALSE, keys |-> "plain"]
 
 ------------------------------------------------------------------------------
 (* the signed matrix *)
@@ -290,16 +290,33 @@ ChooseDupl(D) ==
 (* The claim is checked here, exactly; a verified witness settles feasibility of a problem the  *)
 (* bounded searches left undecided (large null spaces), and its coefficient sum bounds the     *)
 (* minimal sum from above.  It cannot be enabled on a problem without positive solutions.      *)
+\* a verified positive solution x settles feasibility and bounds the minimal sum from above
+Settle(inf, x) ==
+    IF inf.c = "undecided"
+    THEN [inf EXCEPT !.c = "multi", !.minsum = VecSum(x),
+                     !.sub = IF Unelim(inf) THEN "witness-unclassified" ELSE "witness"]
+    ELSE IF inf.c = "multi" /\ VecSum(x) < inf.minsum
+         THEN [inf EXCEPT !.minsum = VecSum(x), !.mins = {}, !.complete = FALSE]
+         ELSE inf
+IsPositiveSolution(x) == Len(x) = N /\ (\A j \in 1..Len(x) : x[j] \in Int) /\ Balanced(A, x) /\ Positive(x)
+
 Witness(x) ==
     /\ stage = "classified" /\ dupl = {}
-    /\ Len(x) = N /\ Balanced(A, x) /\ Positive(x)
+    /\ IsPositiveSolution(x)
     /\ info.c \in {"undecided", "multi", "ray_pos"}
-    /\ info' = IF info.c = "undecided"
-               THEN [info EXCEPT !.c = "multi", !.minsum = VecSum(x),
-                                 !.sub = IF Unelim(info) THEN "witness-unclassified" ELSE "witness"]
-               ELSE IF info.c = "multi" /\ VecSum(x) < info.minsum
-                    THEN [info EXCEPT !.minsum = VecSum(x), !.mins = {}, !.complete = FALSE]
-                    ELSE info
+    /\ info' = Settle(info, x)
+    /\ UNCHANGED <<comp, nr, np, nk, crow, scale, filled, stage, dupl, mode, outcome, form>>
+
+(* A PEER: the answer the implementation itself gave for ANOTHER PRESENTATION of the same problem  *)
+(* (species and keys in another order).  The minimal coefficient sum does not depend on the        *)
+(* presentation, so every peer that TLC verifies to be a positive solution is a witness: an answer *)
+(* in mode None whose sum exceeds a peer's is not minimal.  This is how minimality is judged on    *)
+(* problems whose exact minimum is out of reach of the bounded search (null space of dimension     *)
+(* >= 4, sums ~100: >= 10^9 assignments): a refutation by certificate, sound but not complete.     *)
+(* A peer that is not a positive solution is simply not used (its own trace reports it).           *)
+Peer(x) ==
+    /\ stage = "classified" /\ dupl = {}
+    /\ info' = IF IsPositiveSolution(x) /\ info.c \in {"undecided", "multi"} THEN Settle(info, x) ELSE info
     /\ UNCHANGED <<comp, nr, np, nk, crow, scale, filled, stage, dupl, mode, outcome, form>>
 
 ChooseMode(m) ==
@@ -324,6 +341,8 @@ ChooseMode(m) ==
 (*   calls   the observation is the outcome of the first / second call with the same objects   *)
 (*   modearg mode None passed as None ("plain") or as the deprecated literal 1 ("one")         *)
 (*   allow   allow_duplicates flag (must be TRUE when duplicates are declared)                 *)
+(*   keys    which composition key stands for which row: in row order / in reversed order     *)
+(*           (the code sorts the keys, so this permutes the rows of its matrix)                *)
 IsForm(f) ==
     /\ DOMAIN f = DOMAIN DefaultForm /\ f.set = TRUE
     /\ f.cont \in {"list", "tuple", "set", "frozenset", "dict"}
